@@ -122,3 +122,47 @@ func H_C05_numbered() {
 		verifAssert(q != base+verifItoa(i+1), "nor a taken numbered name")
 	}
 }
+
+// A real history on top of an arbitrary table entry: one import is already present under an
+// arbitrary name, then several paths compete for one hinted base name. Whatever bookkeeping
+// register keeps between calls, all names are legal and pairwise distinct.
+func H_C05_chain() {
+	impSummaries()
+	canonicalMapOrder()
+	verifUnwind(12)
+	f := NewFile("p")
+	impPrefix(f)
+	n0 := nondetString("n0")
+	verifAssume(verifMatch(n0, reIdent))
+	f.imports["pre.example/0"] = importdef{name: n0, alias: nondetBool("a0")}
+	h := nondetString("h")
+	verifAssume(verifMatch(h, reIdent))
+	verifAssume(h != "_")
+	k := 3 + verifTier()
+	var ps, qs []string
+	for i := 0; i < k; i++ {
+		p := impPath(i)
+		verifAssume(p != "pre.example/0")
+		ps = append(ps, p)
+	}
+	distinct(ps)
+	for i := 0; i < k; i++ {
+		if nondetChoice("hintkind_"+pathNames[i], 2) == 0 {
+			f.ImportName(ps[i], h)
+		} else {
+			f.ImportAlias(ps[i], h)
+		}
+	}
+	for i := 0; i < k; i++ {
+		qs = append(qs, f.register(ps[i]))
+	}
+	for i := 0; i < k; i++ {
+		verifObserve("q", qs[i])
+		verifAssert(verifMatch(qs[i], reIdent), "import name is an identifier")
+		verifAssert(!specIsGoReserved(qs[i]), "import name is neither a keyword nor predeclared")
+		verifAssert(qs[i] != n0, "the new name differs from the name already in the table")
+		for j := 0; j < i; j++ {
+			verifAssert(qs[i] != qs[j], "distinct paths get distinct names")
+		}
+	}
+}
